@@ -87,7 +87,7 @@ Definition rdk_agrees_b (m : smol) (r : rdk) : bool :=
   && forallb (fun k => Bool.eqb (existsb (Nat.eqb k) (rdk_marks r)) (stereo_spec m k)) (seq 0 n)
   && forallb (fun k => k <? n) (rdk_marks r)
   && (r_charge r =? charge_spec m)%Z
-  && (r_nrad r <=? 2) && (Z.of_nat (r_nrad r) mod 2 =? n_electrons false (s_atoms m) mod 2)%Z.
+  && (Z.of_nat (r_nrad r) mod 2 =? n_electrons false (s_atoms m) mod 2)%Z.
 (* [wf; arom_consistent; rdk_agrees; build ok] *)
 Definition hyp_flags (I : inputs) : list bool :=
   [wf_mol (mol I); arom_consistent_b (mol I); rdk_agrees_b (mol I) (rd I); bo_build_ok (bo I) || origin_keeps_class].
